@@ -157,6 +157,27 @@ def run(ctx):
                  and isinstance(n.ast.value.func, ast.Attribute) and n.ast.value.func.attr == "append"]
         okb = len(fetched) == 1 and len(emits) == 1 and (fetched[0], True) in facts.at(emits[0])
         det = "fetched=%s emits=%d" % (fetched, len(emits))
+        if okb:
+            # "iff": nothing else decided inside the loop may stand between the fetched value and its emission
+            from ..summ import atom_of
+            heads = [n for n in cfg.live_nodes() if n.kind == "for" and n.ast is ploop[0]]
+            base = set(facts.at(heads[0])) if heads else set()
+            want_atom = atom_of(fetched[0], True)
+            same = {want_atom}
+            for n_ in walk_local(strm.node):
+                if isinstance(n_, ast.Assign) and id(n_) in inside and [src(t_) for t_ in n_.targets] == fetched:
+                    same.add(atom_of(src(n_.value), True))      # the same test spelled through the fetch itself
+            extra = set()
+            for t, tv in set(facts.at(emits[0])) - base:
+                try:
+                    a_ = atom_of(t, tv)
+                except SyntaxError:
+                    continue
+                if a_ not in same:
+                    extra.add("%s%s" % ("" if tv else "not ", t))
+            if extra:
+                okb = False
+                det = "the emission is additionally guarded by: %s" % sorted(extra)[:3]
     ctx.ob("C13.EMIT", strm, "a BY-part is emitted iff its recorded value is non-empty (derived defaults are recorded as None)",
            okb, construct="emit BYxxx", detail="" if okb else det, analysis="must-hold branch facts in the (label, key) loop")
     # the sibling consumer of count tests identity too
@@ -250,6 +271,32 @@ def run(ctx):
     comp = [n for n in pcfg.live_nodes() if n.kind == "stmt" and isinstance(n.ast, ast.Assign) and ("compatible", True) in pfacts.at(n)
             and src(n.ast) in ("forceset = True", "unfold = True")]
     ctx.ob("C13.SET", pr, "compatible implies forceset and unfold", len(comp) == 2, construct="compatible => forceset, unfold")
+    # a property name in front of a single rule must be RRULE - checked by the callee and by the fast path's own guard
+    prr = prog.method(rs.qualname, "_parse_rfc_rrule", "C13.SET")
+    from .. import summ
+    pre = []
+    for st_ in prr.node.body:
+        if isinstance(st_, (ast.For, ast.While, ast.Try)):
+            break
+        pre.append(st_)
+    summ.check_ref(ctx, "C13.SET", pre, "a single rule line may carry a property name only if that name is RRULE (anything else raises ValueError); the "
+                   "rule text is what follows the colon", """
+        if line.find(':') != -1:
+            name, value = line.split(':')
+            if name != "RRULE":
+                raise ValueError("unknown parameter name")
+        else:
+            value = line
+        rrkwargs = {}
+        """, construct="_parse_rfc_rrule: property name", outcome=lambda p_: summ.result_text(p_) if p_.result[0] != "fall" else "value = %s" % src(p_.env.get("value") or p_.env.get("rule") or ast.Name(id="?", ctx=ast.Load())))
+    fast = [n for n in pcfg.live_nodes() if n.kind == "stmt" and isinstance(n.ast, ast.Return) and "self._parse_rfc_rrule(" in src(n.ast)]
+    guarded = [n for n in fast if ("forceset", False) in pfacts.at(n) and any(
+        tv and "find(':')" in t.replace('"', "'") and "startswith('RRULE:')" in t.replace('"', "'") for t, tv in pfacts.at(n))]
+    early = [n for n in fast if not any(m.kind == "for" and n in pcfg.reach([m]) for m in pcfg.live_nodes())]
+    okfast = len(guarded) == 1 and early == guarded
+    ctx.ob("C13.SET", pr, "the single-rule fast path is taken only without forceset and for a text that is a bare rule or starts with RRULE:", okfast,
+           construct="single-rule fast path guard", detail="" if okfast else "returns before the line loop: %d, of which guarded: %d" % (len(early), len(guarded)),
+           analysis="must-hold branch facts")
     setctor = [n for n in pcfg.live_nodes() if n.kind == "stmt" and isinstance(n.ast, ast.Assign) and src(n.ast.value).startswith("rruleset(")]
     okset = len(setctor) == 1 and any(tv and "forceset" in t and "len(rrulevals) > 1" in t and "rdatevals" in t and "exrulevals" in t and "exdatevals" in t
                                       for t, tv in pfacts.at(setctor[0]))
@@ -308,3 +355,9 @@ def run(ctx):
     if len(whiles) != 1:
         raise AnalysisError("C13.TERM", pr.qualname, "unfold loop not found")
     check_cursor_loop(ctx, "C13.TERM", pr, pcfg, whiles[0])
+
+    # ---------------------------------------------------------------- C13.ARGS
+    from ..rules_common import check_call_arguments
+    check_call_arguments(ctx, "C13.ARGS", "C13")
+
+
